@@ -59,7 +59,7 @@ impl<'a> ChainStylist<'a> {
         ctx: Context,
         nodes: impl Iterator<Item = &'a SyntaxNode>,
         operand_pred: impl Fn(&'a SyntaxNode) -> bool,
-        op_converter: impl Fn(&'a SyntaxNode) -> Option<ArenaDoc<'a>>,
+        op_converter: impl Fn(&'a SyntaxNode, &'a SyntaxNode) -> Option<ArenaDoc<'a>>,
         rhs_converter: impl Fn(Context, &'a SyntaxNode) -> Option<ArenaDoc<'a>>,
         fallback_converter: impl Fn(Context, &'a SyntaxNode) -> Option<ArenaDoc<'a>>,
     ) -> Self {
@@ -83,6 +83,7 @@ impl<'a> ChainStylist<'a> {
     /// - `nodes`: A vector of `SyntaxNode`s to be processed.
     /// - `operand_pred`: A predicate that checks if a node is an operand.
     /// - `op_converter`: A function that converts operators into Docs (if some).
+    ///   It receives the operand node and the child to convert.
     /// - `rhs_converter`: A function that converts right-hand side nodes into Docs (if some).
     /// - `fallback_converter`: A function that provides a fallback conversion for nodes that
     ///   do not match the primary criteria. Used for sticky args and innermost expressions.
@@ -91,7 +92,7 @@ impl<'a> ChainStylist<'a> {
         ctx: Context,
         nodes: Vec<&'a SyntaxNode>,
         operand_pred: impl Fn(&'a SyntaxNode) -> bool,
-        op_converter: impl Fn(&'a SyntaxNode) -> Option<ArenaDoc<'a>>,
+        op_converter: impl Fn(&'a SyntaxNode, &'a SyntaxNode) -> Option<ArenaDoc<'a>>,
         rhs_converter: impl Fn(Context, &'a SyntaxNode) -> Option<ArenaDoc<'a>>,
         fallback_converter: impl Fn(Context, &'a SyntaxNode) -> Option<ArenaDoc<'a>>,
     ) -> Self {
@@ -101,7 +102,7 @@ impl<'a> ChainStylist<'a> {
                 self.chain_op_num += 1;
                 let mut seen_op = false;
                 for child in node.children() {
-                    if let Some(op) = op_converter(child) {
+                    if let Some(op) = op_converter(node, child) {
                         seen_op = true;
                         self.items.push(ChainItem::Op(op));
                     } else if is_comment_node(child) {
